@@ -16,7 +16,7 @@ pub fn prop() -> HistProp {
         level: "exploration",
         rule: "random histories of namespace calls (create/open/list/remove/rename, up to 4 live handles, depth<=3) on generated volume configurations, run in lock-step against an in-memory case-insensitive tree; non-trivial = at least one successful mutation and (a failing call, or a cross-directory rename, or a lookup by other case/alias); distinct by hash(config, ops)",
         run_cfg: rc,
-        gen_cfg: GenCfg { populate_pct: 15, ..GenCfg::namespace() },
+        gen_cfg: GenCfg { populate_pct: 15, access_date: vec![false, false, true], ..GenCfg::namespace() },
         nontrivial,
         quick_cases: 20000,
         thorough_cases: 400000,
